@@ -815,6 +815,10 @@ func RelayChain(depth int, inner dhcpv6.DHCPv6, idMask uint32) dhcpv6.DHCPv6 {
 			// an IPv4-mapped address is a legal 16-octet value of these fields
 			link, peer = net.ParseIP("::ffff:192.0.2.33"), net.ParseIP("::ffff:198.51.100.7")
 		}
+		if i == 3 {
+			// Go's 4-byte form of an IPv4 address: the encoder writes its 16-byte (IPv4-mapped) form
+			link, peer = net.IP{192, 0, 2, 34}, net.IP{198, 51, 100, 8}
+		}
 		if i == 1 && depth%2 == 1 {
 			// the client's link-local address in modified EUI-64 form (what ExtractMAC reads the MAC from);
 			// chains of even depth keep a non-EUI-64 peer, so the DUID fallback is exercised as well
